@@ -102,6 +102,33 @@ def run_for_property(prop, seed_value=0, only=None):
             res["details"].append({"seed": s["id"], "what": s["what"], "fires": hit[:3]})
         else:
             res["failed"].append("%s: expected a violation matching '%s', got rc=%s keys=%s" % (s["id"], s["expect"], r["rc"], r["keys"][:4]))
+    # independently produced changes kept under /verif/seeded/: every check recorded as firing must still fire
+    import glob
+
+    for mp in sorted(glob.glob(os.path.join(HERE, "seeded", "*", "meta.json"))):
+        meta = json.load(open(mp))
+        if prop not in meta.get("checks_that_fire", []):
+            continue
+        sid = "seeded/" + meta["id"]
+        if only and sid not in only:
+            continue
+        d = make_scratch()
+        try:
+            r = subprocess.run(["patch", "-p1", "-s", "-d", d, "-i", os.path.join(os.path.dirname(mp), "patch.diff")], stdout=subprocess.PIPE, stderr=subprocess.STDOUT, text=True)
+            res["seeds"] += 1
+            if r.returncode != 0:
+                res["skipped"].append("%s (patch no longer applies)" % sid)
+                continue
+            rc, keys, err = run_check(prop, d)
+            if rc == 1:
+                res["fired"] += 1
+                res["details"].append({"seed": sid, "what": meta.get("needs_to_manifest", ""), "fires": keys[:3]})
+            elif rc == 2 and "cannot extract facts" in err:
+                res["skipped"].append("%s (does not compile on the current tree)" % sid)
+            else:
+                res["failed"].append("%s: recorded as caught by %s but the check is silent (rc=%s)" % (sid, prop, rc))
+        finally:
+            shutil.rmtree(d, ignore_errors=True)
     for n in neutrals:
         if only and n["id"] not in only:
             continue
